@@ -277,7 +277,7 @@ def run(ctx):
                 ctx.violation("unsupported-accepted:" + casekey(r), {**describe(r), "classifier": unsup, "exec": ex},
                               what=f"{r['device']}: circuit classified unsupported ({unsup}) was accepted and its results cannot be validated")
     # ---- model correspondence inside Coq
-    bad = ctx.coq_eval_cases("cases", HEADER, model_cases, "check_case", chunk=(35 if ctx.tier == "quick" else 100))
+    bad = ctx.coq_eval_cases("cases", HEADER, model_cases, "check_case", chunk=(50 if ctx.tier == "quick" else 100))
     if bad:
         diag = ctx.coq_eval_terms("diag", HEADER + "\nRequire Import List ZArith. Import ListNotations.", [f"diag_case {model_cases[i]}" for i in bad[:12]])
     for j, i in enumerate(bad[:12]):
@@ -288,8 +288,8 @@ def run(ctx):
     tm['model'] = round(time.time() - t0, 1)
     # ---- exact reference (Coq) for unitary representable circuits
     ex_runs = [r for r in runs if r.get("exact") and (ctx.tier != "quick" or (r["exact"]["n"] <= 3 and r["exact"]["circuit"].count("%nat]") <= 14))]
-    ex_runs = ex_runs[: (10 if ctx.tier == "quick" else 300)]
-    states = exactsim.exact_states(ctx, "ref", [(r["exact"]["n"], r["exact"]["circuit"]) for r in ex_runs], chunk=(2 if ctx.tier == "quick" else 25)) if ex_runs else []
+    ex_runs = ex_runs[: (8 if ctx.tier == "quick" else 300)]
+    states = exactsim.exact_states(ctx, "ref", [(r["exact"]["n"], r["exact"]["circuit"]) for r in ex_runs], chunk=(4 if ctx.tier == "quick" else 25)) if ex_runs else []
     n_exact_cmp = 0
     for r, stv in zip(ex_runs, states):
         e = r["exact"]
